@@ -3,7 +3,7 @@
    from /repo/metric_learn/base_metric.py on this run.  Carrier: R.
    Finiteness is a floating-point notion and is covered by the correspondence lane only. *)
 From Coq Require Import List Reals.
-From ML Require Import Ops Vec VecR C01Proof.
+From ML Require Import Ops Vec VecR NPFacts C01Proof.
 From MLgen Require Import Src_query.
 Import ListNotations.
 Open Scope R_scope.
